@@ -166,6 +166,8 @@ def explore_closure(run, budget=5000, time_limit=120.0, interp_cls=Interp, cur_n
     work = [[]]
     t0 = time.time()
     status = 'ok'
+    nunsup = 0
+    first_unsup = None
     while work:
         dec = work.pop()
         if len(out) >= budget or time.time() - t0 > time_limit:
@@ -187,5 +189,18 @@ def explore_closure(run, budget=5000, time_limit=120.0, interp_cls=Interp, cur_n
             out.append((ctx, r))
         except Infeasible:
             pass
+        except Unsupported as u:
+            # this path leaves the subset: the obligation is undecided, the other paths are still explored so that what
+            # they refute can be reported; with no other path at all the caller gets the exception as before
+            nunsup += 1
+            first_unsup = first_unsup or u
+            if nunsup > UNSUPPORTED_PATHS:
+                status = 'unsupported: ' + str(first_unsup)
+                break
         work.extend(ctx.new)
+    if nunsup:
+        if not out:
+            raise first_unsup
+        if status == 'ok':
+            status = 'unsupported: ' + str(first_unsup)
     return out, status
